@@ -6,6 +6,8 @@ import ChibiVerif.Lemmas.LinkageScan
 
 namespace ChibiVerif.Linkage
 
+variable [Rules]
+
 /-- an object (not a function) that is a definition of the name `s` -/
 def dataDefOf (s : Sym) (o : Obj) : Bool := !o.isFunction && o.isDefinition && o.sym == s
 
@@ -26,13 +28,12 @@ theorem emitDataVar_isSome (fc : Bool) (o : Obj) : (emitDataVar fc o).isSome = (
   cases hf : o.isFunction <;> cases hd : o.isDefinition <;> simp
   all_goals (split <;> try split) <;> rfl
 
-/-- the entries `emit_data` prints for `s` are as many as there are definitions of `s` in the list -/
-theorem emitData_count (fc : Bool) (s : Sym) : ∀ l : List Obj,
-    ((emitData fc l).filter (fun e => e.sym == s)).length = (l.filter (dataDefOf s)).length
+/-- the entries `emit_data` prints for `s` are as many as there are definitions of `s` in the list it walks -/
+theorem emitDataVar_count (fc : Bool) (s : Sym) : ∀ l : List Obj,
+    ((l.filterMap (emitDataVar fc)).filter (fun e => e.sym == s)).length = (l.filter (dataDefOf s)).length
   | [] => rfl
   | a :: as => by
-    have ih := emitData_count fc s as
-    unfold emitData at ih ⊢
+    have ih := emitDataVar_count fc s as
     simp only [List.filterMap_cons]
     cases he : emitDataVar fc a with
     | none =>
@@ -48,6 +49,29 @@ theorem emitData_count (fc : Bool) (s : Sym) : ∀ l : List Obj,
       have hd : dataDefOf s a = (e.sym == s) := by simp [dataDefOf, hsome, hsym]
       simp only [List.filter, hd]
       split <;> simp [ih]
+
+/-- an object without owner is never skipped by the repaired `emit_data` -/
+theorem ownerLive_of_noOwner (gs : List Obj) {o : Obj} (h : o.owner = none) : ownerLive gs o = true := by
+  simp [ownerLive, h]
+
+/-- the definitions of a name whose objects have no owner (file-scope objects) all reach the printing loop -/
+theorem filter_ownerLive_dataDefOf (gs : List Obj) {s : Sym} : ∀ (l : List Obj), (∀ o, o ∈ l → o.sym = s → o.owner = none) →
+    (l.filter (ownerLive gs)).filter (dataDefOf s) = l.filter (dataDefOf s)
+  | [], _ => rfl
+  | a :: as, h => by
+    have ih := filter_ownerLive_dataDefOf gs as (fun o ho => h o (List.mem_cons_of_mem _ ho))
+    cases hd : dataDefOf s a
+    · cases ho : ownerLive gs a <;> simp [List.filter, hd, ho, ih]
+    · have hs : a.sym = s := by
+        simp only [dataDefOf, Bool.and_eq_true, beq_iff_eq] at hd
+        exact hd.2
+      have ho := ownerLive_of_noOwner gs (h a List.mem_cons_self hs)
+      simp [List.filter, hd, ho, ih]
+
+theorem emitData_count (fc : Bool) (s : Sym) (l : List Obj) (h : ∀ o, o ∈ l → o.sym = s → o.owner = none) :
+    ((emitData fc l).filter (fun e => e.sym == s)).length = (l.filter (dataDefOf s)).length := by
+  unfold emitData
+  rw [emitDataVar_count, filter_ownerLive_dataDefOf l l h]
 
 theorem length_filter_split (p q : Obj → Bool) : ∀ l : List Obj,
     (l.filter p).length = (l.filter (fun o => p o && q o)).length + (l.filter (fun o => p o && !q o)).length
